@@ -628,10 +628,46 @@ def first_line(b: bytes) -> str:
 	return b.split(b'\n', 1)[0].decode('utf-8', 'replace')
 
 
+class TemplateProject(tproj.Project):
+	"""A project whose configuration lists a project template directory BEFORE the shipped one (config `template_dirs`)."""
+	template_dir = ''
+
+	def write_config(self) -> None:
+		super().write_config()
+		if not self.template_dir:
+			return
+		path = os.path.join(self.root, 'config.yml')
+		with open(path, encoding='utf-8') as f:
+			text = f.read()
+		stock = f'  - {tproj.REPO}/data/cpp/template\n'
+		if stock not in text:
+			raise common.InfraError('C06: template_dirs block of tproj.CONFIG_TEMPLATE not recognised')
+		with open(path, 'w', encoding='utf-8') as f:
+			f.write(text.replace(stock, f'  - {self.template_dir}\n{stock}', 1))
+
+
+_TPL: dict[str, str] = {}
+
+
+def depends_template_dir(ctx: Ctx) -> str:
+	"""A template directory (outside every project) that overrides literal/string.j2 with the stock text plus the documented
+	`emit_depends('<string>')`: a module with a string literal gets `#include <string>`, others do not."""
+	if 'dir' not in _TPL:
+		d = os.path.realpath(ctx.tmpdir('tranp-c06-tpldir-'))
+		with open(os.path.join(common.REPO, 'data/cpp/template/literal/string.j2'), encoding='utf-8') as f:
+			stock = f.read()
+		os.makedirs(os.path.join(d, 'literal'))
+		with open(os.path.join(d, 'literal', 'string.j2'), 'w', encoding='utf-8') as f:
+			f.write("{{- emit_depends('<string>') -}}\n" + stock)
+		_TPL['dir'] = d
+	return _TPL['dir']
+
+
 class RealCase:
 	"""A temporary project and the op interpreter shared by the correspondence stream and the searches."""
 
-	def __init__(self, ctx: Ctx, shape: str, variants: dict[str, int], dirs: list[str], force_cfg: bool | None = None, lang: str = 'cpp:h', seed_cache: bool = True) -> None:
+	def __init__(self, ctx: Ctx, shape: str, variants: dict[str, int], dirs: list[str], force_cfg: bool | None = None, lang: str = 'cpp:h', seed_cache: bool = True,
+			templates: bool = False) -> None:
 		self.ctx = ctx
 		self.shape = shape
 		self.graph = graph_shapes()[shape]
@@ -639,7 +675,10 @@ class RealCase:
 		self.packages = sorted({m.split('.')[0] for m in self.graph})
 		root = os.path.realpath(ctx.tmpdir('tranp-c06-'))
 		globs = [m.replace('.', '/') + '.py' for m in MODULE_ORDER[shape]] if shape in MODULE_ORDER else [f'{p}/**/*.py' for p in self.packages]
-		self.proj = tproj.Project(root, package='', output_dirs=dirs, output_language=lang, input_globs=globs, config_extra=self.force_line(force_cfg))
+		self.proj = TemplateProject(root, package='', output_dirs=dirs, output_language=lang, input_globs=globs, config_extra=self.force_line(force_cfg))
+		if templates:
+			self.proj.template_dir = depends_template_dir(ctx)
+			self.proj.write_config()
 		self.force_cfg = force_cfg
 		self.vers = {'app': versions()[0], 'py2cpp': versions()[1]}
 		for m in self.graph:
@@ -659,6 +698,7 @@ class RealCase:
 		c = RealCase.__new__(RealCase)
 		c.__dict__.update(self.__dict__)
 		c.proj = proj
+		proj.__class__ = self.proj.__class__		# tproj.Project.clone builds a plain Project: keep the template-aware write_config
 		c.variants = dict(self.variants)
 		c.vers = dict(self.vers)
 		c.written_with = {k: dict(v) for k, v in self.written_with.items()}
@@ -843,6 +883,19 @@ def gen_colliding_dirs(rng: random.Random, graph: dict[str, list[str]]) -> list[
 	return rng.choice(cands) if cands else None
 
 
+def gen_owner_switch(rng: random.Random, graph: dict[str, list[str]]) -> tuple[list[str], list[str]] | None:
+	"""Two injective output_dirs settings under which one output path belongs to different modules: the prefix rule strips the
+	directory of one of two same-named modules, then that of the other (`['alpha/:out/', 'rest/']` → `['beta/:out/', 'rest/']`)."""
+	mods = list(graph)
+	pairs = [(a, b) for a in mods for b in mods if a != b and a.rsplit('.', 1)[1] == b.rsplit('.', 1)[1]]
+	if not pairs:
+		return None
+	a, b = rng.choice(pairs)
+	out, rest = rng.choice([('out/', 'rest/'), ('out', 'rest'), ('./out', 'out2')])
+	da, db = a.rsplit('.', 1)[0].replace('.', '/'), b.rsplit('.', 1)[0].replace('.', '/')
+	return [f'{da}/:{out}', rest], [f'{db}/:{out}', rest]
+
+
 def gen_variants(rng: random.Random, graph: dict[str, list[str]]) -> dict[str, int]:
 	return {m: rng.randrange(N_VARIANTS) for m in graph}
 
@@ -987,13 +1040,18 @@ def diagnose_fixpoint(ctx: Ctx, case: RealCase, a: tuple[str, dict[str, bytes], 
 	if rel not in a[1]:
 		return 'output-missing-after-plain-run', f'{rel} (module {m}) does not exist after the plain run'
 	if path in a[2]:
-		return 'regenerated-output-differs', f'module {m} was regenerated by both runs with different results; {detail}'
+		return 'output-depends-on-run-set', (f'module {m} was regenerated by both runs with different results: its output depends on which other modules '
+			f'the same process transpiled (plain run wrote {len(a[2])} file(s), forced run {len(b[2])}); {detail}')
 	# the header the stale file records, read with the harness' own parser (not with the code under test)
 	line = first_line(a[1][rel])
 	try:
 		recorded = json.loads(line.split(f'{MetaHeader.Tag}: ', 1)[1])
 	except Exception as e:  # noqa: BLE001
 		return f'stale-output-unreadable-header:{type(e).__name__}', detail
+	rec_path = (recorded.get('module') or {}).get('path')
+	if rec_path != m:
+		return 'stale-foreign-output', (f'{rel} is now the output path of module {m} but still holds the output of module {rec_path} '
+			f'(the mapping changed); the plain run skipped it; {detail}')
 	rec_versions = (recorded.get('version'), (recorded.get('transpiler') or {}).get('version'))
 	if rec_versions != (case.vers['app'], case.vers['py2cpp']):
 		return 'stale-version-output', (f'module {m}: {rel} records application / transpiler version {rec_versions}, the running program is '
@@ -1080,7 +1138,8 @@ def fixpoint_history(ctx: Ctx, rng: random.Random, res: SearchResult, hist: Coun
 		shape = rng.choice(shapes)
 		variants = gen_variants(rng, graph_shapes()[shape])
 		dirs, lang = ['./out'], 'cpp:h'
-	case = RealCase(ctx, shape, variants, dirs, None, lang)
+	templates = bool(plan.get('templates')) if plan is not None else (rng.random() < 0.25)
+	case = RealCase(ctx, shape, variants, dirs, None, lang, templates=templates)
 	directed: list[list[Any]] = []
 	if plan is None:
 		r = rng.random()
@@ -1095,7 +1154,11 @@ def fixpoint_history(ctx: Ctx, rng: random.Random, res: SearchResult, hist: Coun
 					case.proj.output_dirs = d
 					case.proj.write_config()
 					break
-		if rng.random() < 0.15:
+		switch = gen_owner_switch(rng, case.graph)
+		if switch is not None and rng.random() < 0.25 and case.safe(switch[0]) and case.safe(switch[1]):
+			# a path changes its owner while the old owner stays a listed module
+			directed = [['setdirs', switch[0]], ['run', rng.choice([0, 1])], ['setdirs', switch[1]]]
+		elif rng.random() < 0.15:
 			# a run, then a release with another application / transpiler version
 			which = rng.choice(['app', 'py2cpp'])
 			directed = [['run', rng.choice([0, 1])], ['setver', which, rng.choice(VERSION_POOL[1:])]]
@@ -1122,7 +1185,7 @@ def fixpoint_history(ctx: Ctx, rng: random.Random, res: SearchResult, hist: Coun
 			res.cases += 1
 			seen.add(json.dumps([shape, variants, init_dirs, done], sort_keys=True))
 			hist[f"{shape}:{'equal' if (a[0], a[1]) == (b[0], b[1]) else 'differs'}"] += 1
-			replay = {'search': 'fixpoint', 'shape': shape, 'variants': variants, 'dirs': init_dirs, 'lang': lang, 'ops': list(done)}
+			replay = {'search': 'fixpoint', 'shape': shape, 'variants': variants, 'dirs': init_dirs, 'lang': lang, 'templates': templates, 'ops': list(done)}
 			if b[0] != 'ok':
 				# generated modules are valid and the configuration is well-formed: a forced run has to succeed
 				res.findings.append(Finding(key=f'run-fails:{b[0]}', what=f'forced run over a valid project fails with {b[0]} (plain run: {a[0]})', replay=replay))
@@ -1149,7 +1212,7 @@ def fixpoint_history(ctx: Ctx, rng: random.Random, res: SearchResult, hist: Coun
 				note = 'the forced run from an emptied (library-seeded) cache writes the same as the forced run from the current cache' if cold == b[1] else \
 					'NOTE: the forced run from an emptied cache differs from the forced run over the current cache (symbol-cache staleness, property C05); the comparison above uses one cache state for both runs'
 				res.findings.append(Finding(key=key, what=f'plain run ≠ forced run on the same project state: {why}; {note}',
-					replay={'search': 'fixpoint', 'shape': shape, 'variants': variants, 'dirs': init_dirs, 'lang': lang, 'ops': list(done)}))
+					replay={'search': 'fixpoint', 'shape': shape, 'variants': variants, 'dirs': init_dirs, 'lang': lang, 'templates': templates, 'ops': list(done)}))
 				hist[f'finding:{key}'] += 1
 				break
 			if wrong:
@@ -1165,6 +1228,12 @@ def fixpoint_history(ctx: Ctx, rng: random.Random, res: SearchResult, hist: Coun
 
 
 DIRECTED_PLANS: list[dict[str, Any]] = [
+	# an output path changes its owner (same-named modules in two packages) between two plain runs; both mappings are injective
+	{'search': 'fixpoint', 'shape': 'flat3', 'variants': {'app.a': 0, 'app.b': 1, 'lib.a': 2}, 'dirs': ['app/:out/', 'rest/'], 'lang': 'cpp:h',
+		'ops': [['run', 0], ['setdirs', ['lib/:out/', 'rest/']]]},
+	# project template with emit_depends: the first module (string literal) reports <string>; only the last module is stale
+	{'search': 'fixpoint', 'shape': 'subnames', 'variants': {'app.shape_utils': 1, 'app.xshape': 0, 'app.shape': 2, 'app.other': 0}, 'dirs': ['./out'], 'lang': 'cpp:h',
+		'templates': True, 'ops': [['run', 0], ['edit', 'app.other', 2]]},
 	{'search': 'fixpoint', 'shape': 'subnames', 'variants': {'app.shape_utils': 0, 'app.xshape': 1, 'app.shape': 2, 'app.other': 3}, 'dirs': ['./out'], 'lang': 'cpp:h',
 		'ops': [['run', 0], ['edit', 'app.shape', 3]]},
 	{'search': 'fixpoint', 'shape': 'subnames_pkg', 'variants': {'lib.app.m1': 0, 'app.m10': 5, 'app.sub.m1': 2, 'app.m1': 3, 'app.m': 1}, 'dirs': ['out'], 'lang': 'cpp:h',
